@@ -17,6 +17,7 @@ Theorem C12_order_dependent_sites :
                    | Some d => negb (order_independent d) | None => true end) map_range_sites
   = [].
 Proof. vm_compute. reflexivity. Qed.
+Print Assumptions C12_order_dependent_sites.
 
 (* SortedSink / ExplicitSort: the sorted output is a function of the multiset produced, for ANY
    (unstable) sorting algorithm, because the key (file, line, column, message) is a total order *)
@@ -31,18 +32,22 @@ Print Assumptions C12_diagnostics_order_independent.
 Theorem C12_key_needs_message_refuted :
   exists o1 o2 : list diag, Permutation o1 o2 /\ sortedb diag_le_nomsg o1 = true /\ sortedb diag_le_nomsg o2 = true /\ o1 <> o2.
 Proof. exact no_message_key_refuted. Qed.
+Print Assumptions C12_key_needs_message_refuted.
 
 (* SetBuild / AnyAll *)
 Theorem C12_set_build : forall (A : Type) (l1 l2 : list A), Permutation l1 l2 -> forall x, In x l1 <-> In x l2.
 Proof. exact set_build_order_independent. Qed.
+Print Assumptions C12_set_build.
 Theorem C12_any : forall (A : Type) (p : A -> bool) (l1 l2 : list A), Permutation l1 l2 -> existsb p l1 = existsb p l2.
 Proof. exact any_order_independent. Qed.
+Print Assumptions C12_any.
 
 (* returning at the first failing entry WITHOUT sorting would depend on the order (as the `-c key=value`
    overrides did before they were sorted) *)
 Theorem C12_first_error_refuted :
   exists (l1 l2 : list N), Permutation l1 l2 /\ find (fun k => N.ltb 5 k) l1 <> find (fun k => N.ltb 5 k) l2.
 Proof. exact first_error_refuted. Qed.
+Print Assumptions C12_first_error_refuted.
 
 (* regenerating an unchanged package leaves every output file untouched (contents and mtimes) *)
 Theorem C12_idempotent : forall now1 now2 outs fs, NoDup (map fst outs) ->
